@@ -954,8 +954,10 @@ fn run_seq(hist_file: &str, trace_file: &str, dir: &Path) {
 // probe / cleanup
 
 fn probe(dir: &Path) -> Result<(), String> {
-    if !Path::new("/dev/fuse").exists() {
-        return Err("/dev/fuse does not exist".into());
+    // (SESSION_FUSE_DEV only exists to exercise this exit path of the check)
+    let dev = std::env::var("SESSION_FUSE_DEV").unwrap_or_else(|_| "/dev/fuse".to_string());
+    if !Path::new(&dev).exists() {
+        return Err(format!("{dev} does not exist"));
     }
     let mp = dir.join("probe-mnt");
     std::fs::create_dir_all(&mp).map_err(|e| e.to_string())?;
